@@ -72,9 +72,10 @@ func rolePerms(role any, cfg roomCfg) []string {
 }
 
 type mMember struct {
-	user  string
-	perms []string
-	data  map[string]any
+	user    string
+	perms   []string
+	data    map[string]any
+	byToken bool // admitted with a stored token
 }
 
 type mHist struct {
@@ -460,7 +461,11 @@ func (r *room) doJoin(sc *simClient) {
 	// one join in seven presents a token instead of a password
 	var tok *mToken
 	joinMsg := clientMessage{Type: "join", Kind: "join", Group: gname, Username: &uname, Password: pw}
-	if !r.isMember(sc) && len(r.joinTokens) > 0 && rapid.IntRange(0, 6).Draw(t, "withToken") == 0 {
+	tokenOneIn := 7
+	if r.or == "C09" {
+		tokenOneIn = 2 // the token machine
+	}
+	if !r.isMember(sc) && len(r.joinTokens) > 0 && rapid.IntRange(0, tokenOneIn-1).Draw(t, "withToken") == 0 {
 		tk := r.joinTokens[rapid.IntRange(0, len(r.joinTokens)-1).Draw(t, "whichToken")]
 		if tk.group != gname && rapid.IntRange(0, 3).Draw(t, "tokenOwnGroup") != 0 {
 			// most of the time in a group the token is good for
@@ -556,7 +561,7 @@ func (r *room) doJoin(sc *simClient) {
 		t.Fatalf("join closed the connection: %v", err)
 	}
 	if reason == "" {
-		g.members[sc.id] = &mMember{user: uname, perms: perms, data: nil}
+		g.members[sc.id] = &mMember{user: uname, perms: perms, data: nil, byToken: tok != nil}
 		r.where[sc.id] = gname
 		if has(perms, "op") && r.cfg.autolock {
 			// an operator's arrival does not unlock by itself
@@ -884,6 +889,16 @@ func (r *room) doModerate(sc *simClient) {
 	if g != nil && !oneIn(t, 5, "anyTarget") {
 		if o := r.pickClient("memberTarget", func(o *simClient) bool { return r.where[o.id] == g.name }); o != nil {
 			target = o
+		}
+	}
+	if g != nil && r.or == "C09" && rapid.Bool().Draw(t, "aimAtTokenBearer") {
+		// the token machine: moderation that takes something away from somebody admitted with a token
+		if o := r.pickClient("bearerTarget", func(o *simClient) bool {
+			m := g.members[o.id]
+			return m != nil && m.byToken
+		}); o != nil {
+			target = o
+			kind = rapid.SampledFrom([]string{"unpresent", "shutup", "unop", "op", "present"}).Draw(t, "bearerModKind")
 		}
 	}
 	allowed := me != nil && has(me.perms, "op")
